@@ -13,6 +13,7 @@ import (
 	"verifh/ref"
 	"verifh/simeth"
 	"verifh/simpg"
+	"verifh/vrt"
 	"verifh/world"
 )
 
@@ -273,4 +274,19 @@ func cpuSeconds() float64 {
 		return 0
 	}
 	return float64(ru.Utime.Sec+ru.Stime.Sec) + float64(ru.Utime.Usec+ru.Stime.Usec)/1e6
+}
+
+// gate is a chooser that takes the default alternative without consulting (or recording anything in)
+// the explorer while it is closed: the sequential set-up and drain phases of an execution are not
+// part of the explored schedule space.
+type gate struct {
+	inner vrt.Chooser
+	open  bool
+}
+
+func (g *gate) Choose(kinds []uint8, label string) int {
+	if !g.open || g.inner == nil {
+		return 0
+	}
+	return g.inner.Choose(kinds, label)
 }
